@@ -1,5 +1,6 @@
 import PromModel.Tsdb.HistChunk
 import PromProofs.ChunkXorLemmas
+import PromProofs.HistChunk
 /-
   C11 stage 2: `decodeChunk (encodeChunk c) = some c` for integer histogram chunks (exponential schemas).
 -/
@@ -355,6 +356,204 @@ theorem decodeChunk_encodeChunk (c : Hist.Chunk) (s0 : Stored) (ss : List Stored
   simp only [hnl, hrest, hst, hdrOfByte_hdrByte]
   have hr : c.rev = (s0 :: ss).reverse := by rw [← ok.rev, List.reverse_reverse]
   have hf := ok.int
+  cases c
+  simp_all
+
+/-! ## float histogram chunks -/
+
+/-- encoder-side vs. iterator-side `xorValue` -/
+def XRel (a d : XV) : Prop := a.value = d.value ∧ a.value < 2 ^ 64 ∧ WinRel a.leading a.trailing d.leading d.trailing
+
+theorem xvRead_xvWrite (a d : XV) (v : Nat) (rest : Bits) (hv : v < 2 ^ 64) (rel : XRel a d) :
+    ∃ d', xvRead d ((xvWrite a v).1 ++ rest) = some (d', rest) ∧ XRel (xvWrite a v).2 d' ∧ d'.value = v := by
+  obtain ⟨dl', dt', hx, hw⟩ := xorRead_xorWrite a.value v a.leading a.trailing d.leading d.trailing rest rel.2.1 hv rel.2.2
+  refine ⟨⟨v, dl', dt'⟩, ?_, ⟨rfl, hv, hw⟩, rfl⟩
+  simp only [xvRead, xvWrite, ← rel.1, hx]
+
+theorem xvGo_nil (xs : List XV) : xvGo [] xs = ([], xs) := by cases xs <;> rfl
+
+theorem xvReadAll_xvGo : ∀ (bs : List Int) (as ds : List XV) (rest : Bits), bs.length = as.length →
+    All2 XRel as ds → (∀ b ∈ bs, 0 ≤ b ∧ b < 2 ^ 64) →
+    ∃ ds', xvReadAll ds ((xvGo bs as).1 ++ rest) = some (ds', rest) ∧ All2 XRel (xvGo bs as).2 ds' ∧
+      ds'.map (fun x => (x.value : Int)) = bs ∧ (xvGo bs as).2.length = as.length
+  | [], [], [], _, _, _, _ => ⟨[], rfl, trivial, rfl, rfl⟩
+  | [], [], _ :: _, _, _, h, _ => h.elim
+  | [], _ :: _, _, _, h, _, _ => by simp at h
+  | _ :: _, [], _, _, h, _, _ => by simp at h
+  | _ :: _, _ :: _, [], _, _, h, _ => h.elim
+  | b :: bs, a :: as, d :: ds, rest, hl, hr, hb => by
+    have hb0 := hb b (by simp)
+    obtain ⟨d', h1, r1, v1⟩ := xvRead_xvWrite a d b.toNat ((xvGo bs as).1 ++ rest) (by omega) hr.1
+    obtain ⟨ds', h2, r2, v2, l2⟩ := xvReadAll_xvGo bs as ds rest (by simpa using hl) hr.2
+      (fun x hx => hb x (by simp [hx]))
+    refine ⟨d' :: ds', ?_, ⟨r1, r2⟩, ?_, by simp [xvGo, l2]⟩
+    · simp only [xvGo, xvReadAll, List.append_assoc, h1, h2]
+    · simp only [List.map_cons, v1, v2, List.cons.injEq, and_true]; omega
+
+structure RelF (a d : FSt) : Prop where
+  t : a.t = d.t
+  tDelta : a.tDelta = d.tDelta
+  cnt : XRel a.cnt d.cnt
+  zcnt : XRel a.zcnt d.zcnt
+  sum : XRel a.sum d.sum
+  pB : All2 XRel a.pB d.pB
+  nB : All2 XRel a.nB d.nB
+
+structure BndF (numP numN : Nat) (a : FSt) : Prop where
+  t : Sm a.t
+  tDelta : Sm2 a.tDelta
+  pl : a.pB.length = numP
+  nl : a.nB.length = numN
+
+structure SOkF (numP numN : Nat) (s : Stored) : Prop where
+  t : Sm s.t
+  cnt : s.count < 2 ^ 64
+  zcnt : s.zcount < 2 ^ 64
+  sum : s.sum < 2 ^ 64
+  stale : s.sum = staleBits → s.count = 0 ∧ s.zcount = 0 ∧ s.pB = [] ∧ s.nB = []
+  live : s.sum ≠ staleBits → s.pB.length = numP ∧ s.nB.length = numN ∧ (∀ b ∈ s.pB, 0 ≤ b ∧ b < 2 ^ 64) ∧
+    (∀ b ∈ s.nB, 0 ≤ b ∧ b < 2 ^ 64)
+
+theorem decNextF_encNextF (numP numN : Nat) (a d : FSt) (s : Stored) (rest : Bits) (rel : RelF a d)
+    (bnd : BndF numP numN a) (hs : SOkF numP numN s) :
+    ∃ d', decNextF d ((encNextF a s).1 ++ rest) = some (d', rest) ∧ RelF (encNextF a s).2 d' ∧
+      BndF numP numN (encNextF a s).2 ∧ storedOfF d' = s := by
+  have ht := hs.t; have hat := bnd.t; have hatd := bnd.tDelta
+  simp only [Sm, Sm2] at ht hat hatd
+  have hI1 : I64 (s.t - a.t - a.tDelta) := I64_of _ (by omega)
+  obtain ⟨sm', hsm, rsm, vsm⟩ := xvRead_xvWrite a.sum d.sum s.sum
+    ((xvGo s.pB a.pB).1 ++ ((xvGo s.nB a.nB).1 ++ rest)) hs.sum rel.sum
+  obtain ⟨zc', hzc, rzc, vzc⟩ := xvRead_xvWrite a.zcnt d.zcnt s.zcount
+    ((xvWrite a.sum s.sum).1 ++ ((xvGo s.pB a.pB).1 ++ ((xvGo s.nB a.nB).1 ++ rest))) hs.zcnt rel.zcnt
+  obtain ⟨cn', hcn, rcn, vcn⟩ := xvRead_xvWrite a.cnt d.cnt s.count
+    ((xvWrite a.zcnt s.zcount).1 ++ ((xvWrite a.sum s.sum).1 ++ ((xvGo s.pB a.pB).1 ++ ((xvGo s.nB a.nB).1 ++ rest))))
+    hs.cnt rel.cnt
+  have e1 : d.t + (d.tDelta + (s.t - a.t - a.tDelta)) = s.t := by rw [← rel.t, ← rel.tDelta]; omega
+  have e2 : d.tDelta + (s.t - a.t - a.tDelta) = s.t - a.t := by rw [← rel.tDelta]; omega
+  by_cases hst : s.sum = staleBits
+  · obtain ⟨c0, z0, p0, n0⟩ := hs.stale hst
+    refine ⟨{ d with tDelta := d.tDelta + (s.t - a.t - a.tDelta), t := d.t + (d.tDelta + (s.t - a.t - a.tDelta)),
+                     cnt := cn', zcnt := zc', sum := sm' }, ?_, ?_, ?_, ?_⟩
+    · simp only [p0, n0, xvGo_nil, List.nil_append] at hsm hzc hcn
+      simp only [encNextF, decNextF, p0, n0, xvGo_nil, List.append_nil, List.append_assoc,
+        readVarbitInt_put _ _ hI1, hcn, hzc, hsm]
+      simp only [vsm, hst, if_true]
+    · exact ⟨by simp only [encNextF]; rw [e1], by simp only [encNextF]; rw [e2], rcn, rzc, rsm,
+        by simp only [encNextF, p0, xvGo_nil]; exact rel.pB, by simp only [encNextF, n0, xvGo_nil]; exact rel.nB⟩
+    · exact ⟨hs.t, by show Sm2 (s.t - a.t); simp only [Sm2]; omega,
+        by simp only [encNextF, p0, xvGo_nil]; exact bnd.pl, by simp only [encNextF, n0, xvGo_nil]; exact bnd.nl⟩
+    · simp only [storedOfF, vsm, hst, if_true, e1]
+      cases s; simp_all
+  · obtain ⟨hpl, hnl, hpb, hnb⟩ := hs.live hst
+    obtain ⟨pn', hpn, rpn, vpn, lpn⟩ := xvReadAll_xvGo s.pB a.pB d.pB ((xvGo s.nB a.nB).1 ++ rest)
+      (by rw [hpl, bnd.pl]) rel.pB hpb
+    obtain ⟨nn', hnn, rnn, vnn, lnn⟩ := xvReadAll_xvGo s.nB a.nB d.nB rest (by rw [hnl, bnd.nl]) rel.nB hnb
+    refine ⟨{ d with tDelta := d.tDelta + (s.t - a.t - a.tDelta), t := d.t + (d.tDelta + (s.t - a.t - a.tDelta)),
+                     cnt := cn', zcnt := zc', sum := sm', pB := pn', nB := nn' }, ?_, ?_, ?_, ?_⟩
+    · simp only [encNextF, decNextF, List.append_assoc, readVarbitInt_put _ _ hI1, hcn, hzc, hsm]
+      simp only [vsm, hst, if_false, hpn, hnn]
+    · exact ⟨by simp only [encNextF]; rw [e1], by simp only [encNextF]; rw [e2], rcn, rzc, rsm, rpn, rnn⟩
+    · exact ⟨hs.t, by show Sm2 (s.t - a.t); simp only [Sm2]; omega,
+        by show (xvGo s.pB a.pB).2.length = numP; rw [lpn]; exact bnd.pl,
+        by show (xvGo s.nB a.nB).2.length = numN; rw [lnn]; exact bnd.nl⟩
+    · simp only [storedOfF, vsm, hst, if_false, e1, vcn, vzc, vpn, vnn]
+
+theorem decRestF_encRestF (numP numN : Nat) : ∀ (ss : List Stored) (a d : FSt) (rest : Bits), RelF a d →
+    BndF numP numN a → (∀ s ∈ ss, SOkF numP numN s) → decRestF ss.length d (encRestF a ss ++ rest) = some ss
+  | [], _, _, _, _, _, _ => rfl
+  | s :: ss, a, d, rest, rel, bnd, hs => by
+    obtain ⟨d', hd, rel', bnd', hst⟩ := decNextF_encNextF numP numN a d s (encRestF (encNextF a s).2 ss ++ rest) rel bnd
+      (hs s (by simp))
+    have ih := decRestF_encRestF numP numN ss (encNextF a s).2 d' rest rel' bnd' (fun x hx => hs x (by simp [hx]))
+    simp only [List.length_cons, decRestF, encRestF, List.append_assoc, hd, ih, hst]
+
+theorem readRawN_put (l : List Int) (rest : Bits) (h : ∀ b ∈ l, 0 ≤ b ∧ b < 2 ^ 64) :
+    readRawN l.length (putRaw l ++ rest) = some (l.map Int.toNat, rest) := by
+  induction l with
+  | nil => rfl
+  | cons b tl ih =>
+    have hb := h b (by simp)
+    have := ih (fun x hx => h x (by simp [hx]))
+    simp only [putRaw] at this
+    simp only [List.length_cons, putRaw, List.flatMap_cons, List.append_assoc, readRawN,
+      readBits_natToBits_lt _ (by omega : b.toNat < 2 ^ 64), this, List.map_cons]
+
+theorem all2_fresh : ∀ (l : List Int), (∀ b ∈ l, 0 ≤ b ∧ b < 2 ^ 64) →
+    All2 XRel (l.map fun b => (⟨b.toNat, 255, 0⟩ : XV)) ((l.map Int.toNat).map fun v => (⟨v, 0, 0⟩ : XV))
+  | [], _ => trivial
+  | b :: tl, h => by
+    have hb := h b (by simp)
+    exact ⟨⟨rfl, by show b.toNat < 2 ^ 64; omega, Or.inl rfl⟩, all2_fresh tl (fun x hx => h x (by simp [hx]))⟩
+
+theorem map_toNat_cast : ∀ (l : List Int), (∀ b ∈ l, 0 ≤ b ∧ b < 2 ^ 64) →
+    ((l.map Int.toNat).map fun v => (⟨v, 0, 0⟩ : XV)).map (fun x => (x.value : Int)) = l
+  | [], _ => rfl
+  | b :: tl, h => by
+    have hb := h b (by simp)
+    simp only [List.map_cons, map_toNat_cast tl (fun x hx => h x (by simp [hx])), List.cons.injEq, and_true]
+    omega
+
+theorem decFirstF_encFirstF (numP numN : Nat) (s : Stored) (rest : Bits) (hs : SOkF numP numN s)
+    (hl : s.pB.length = numP ∧ s.nB.length = numN) :
+    ∃ d, decFirstF numP numN ((encFirstF s).1 ++ rest) = some (d, rest) ∧ RelF (encFirstF s).2 d ∧
+      BndF numP numN (encFirstF s).2 ∧ storedOfF d = s := by
+  have hb : (∀ b ∈ s.pB, 0 ≤ b ∧ b < 2 ^ 64) ∧ (∀ b ∈ s.nB, 0 ≤ b ∧ b < 2 ^ 64) := by
+    by_cases hst : s.sum = staleBits
+    · obtain ⟨_, _, p0, n0⟩ := hs.stale hst; simp [p0, n0]
+    · exact (hs.live hst).2.2
+  have ht := hs.t; simp only [Sm] at ht
+  refine ⟨{ t := s.t, tDelta := 0, cnt := ⟨s.count, 0, 0⟩, zcnt := ⟨s.zcount, 0, 0⟩, sum := ⟨s.sum, 0, 0⟩,
+            pB := (s.pB.map Int.toNat).map fun v => ⟨v, 0, 0⟩, nB := (s.nB.map Int.toNat).map fun v => ⟨v, 0, 0⟩ },
+    ?_, ?_, ?_, ?_⟩
+  · simp only [encFirstF, decFirstF, List.append_assoc, readVarbitInt_put _ _ (I64_of s.t (by omega)),
+      readBits_natToBits_lt _ hs.cnt, readBits_natToBits_lt _ hs.zcnt, readBits_natToBits_lt _ hs.sum]
+    rw [← hl.1, readRawN_put _ _ hb.1]
+    simp only
+    rw [← hl.2, readRawN_put _ _ hb.2]
+  · exact ⟨rfl, rfl, ⟨rfl, hs.cnt, Or.inl rfl⟩, ⟨rfl, hs.zcnt, Or.inl rfl⟩, ⟨rfl, hs.sum, Or.inl rfl⟩,
+      all2_fresh _ hb.1, all2_fresh _ hb.2⟩
+  · exact ⟨hs.t, by show Sm2 0; simp only [Sm2]; omega, by simp [encFirstF, hl.1], by simp [encFirstF, hl.2]⟩
+  · simp only [storedOfF]
+    by_cases hst : s.sum = staleBits
+    · obtain ⟨c0, z0, p0, n0⟩ := hs.stale hst
+      simp only [hst, if_true]
+      cases s; simp_all
+    · simp only [hst, if_false, map_toNat_cast _ hb.1, map_toNat_cast _ hb.2]
+
+structure ChunkOkF (c : Hist.Chunk) (s0 : Stored) (ss : List Stored) : Prop where
+  flt : c.float = true
+  num : c.num < 65536
+  layout : LayoutOk (layoutOf c)
+  rev : c.rev.reverse = s0 :: ss
+  first : s0.pB.length = countSpans c.pSpans ∧ s0.nB.length = countSpans c.nSpans
+  samples : ∀ s ∈ s0 :: ss, SOkF (countSpans c.pSpans) (countSpans c.nSpans) s
+
+/-- **histchunk_roundtrip, float flavour.** -/
+theorem decodeChunkF_encodeChunk (c : Hist.Chunk) (s0 : Stored) (ss : List Stored) (ok : ChunkOkF c s0 ss) :
+    decodeChunkF (encodeChunk c) = some c := by
+  have hnum : c.num = ss.length + 1 := by
+    have := congrArg List.length ok.rev
+    simpa [Hist.Chunk.num] using this
+  have h65 := ok.num
+  have hn1 : c.num / 256 % 256 * 256 + c.num % 256 = c.num := by omega
+  have hn0 : c.num ≠ 0 := by omega
+  obtain ⟨d, hd, rel, bnd, hst⟩ := decFirstF_encFirstF (countSpans c.pSpans) (countSpans c.nSpans) s0
+    (encRestF (encFirstF s0).2 ss ++ List.replicate (padLen (encodeBitsF c).length) false)
+    (ok.samples s0 (by simp)) ok.first
+  have hrest := decRestF_encRestF (countSpans c.pSpans) (countSpans c.nSpans) ss _ d
+    (List.replicate (padLen (encodeBitsF c).length) false) rel bnd (fun s hs => ok.samples s (by simp [hs]))
+  have hbits : encodeBitsF c = putLayout (layoutOf c) ++ (encFirstF s0).1 ++ encRestF (encFirstF s0).2 ss := by
+    simp only [encodeBitsF, ok.rev]
+  simp only [decodeChunkF, encodeChunk, ok.flt, if_true, hn1, hn0, if_false, fromBytes_toBytes, padTo8]
+  rw [hbits] at hd hrest ⊢
+  simp only [List.append_assoc] at hd hrest ⊢
+  rw [readLayout_put _ _ ok.layout]
+  simp only [layoutOf] at hd hrest ⊢
+  have hnl : c.num - 1 = ss.length := by omega
+  rw [hd]
+  simp only [hnl, hrest, hst, hdrOfByte_hdrByte]
+  have hr : c.rev = (s0 :: ss).reverse := by rw [← ok.rev, List.reverse_reverse]
+  have hf := ok.flt
   cases c
   simp_all
 
